@@ -1121,6 +1121,106 @@ def rule_initialisable(chk, prog, tier):
     r.exhaustive = False
 
 
+def rule_shared_array_type(chk, prog, tier):
+    r = chk.rule('C07.g', 'an initialiser completes the type of the object it initialises and nothing else: when the declared type is an array of unknown size that other declarations can name (a typedef name, typeof) '
+                 'the shared type stays incomplete - the next `T b = {...}` takes its own size from its own list - while the declared object (or compound literal) gets the size the list gives', floor=5,
+                 oracle='C11 6.7.9p22, 6.7.8p3 (a typedef name denotes the type, it is not redefined by use)')
+    from props import c09
+    decl_fn = prog.require_func('decl', 'decl.c')
+    cast_fn = prog.require_func('castexpr', 'expr.c')
+    def shared_T(it, w):
+        t = it.call('mkarraytype', [w.t('int'), 0, 0])
+        return t
+    def completing_parseinit(seen):
+        def parseinit(i2, a, e):
+            t = a[1]
+            seen['passed'] = t
+            if not (i2.load(t.obj, ('kind',)) == ev(prog, 'TYPEARRAY') and i2.load(t.obj, ('incomplete',))):
+                raise Unsupported('parseinit model: expected an array of unknown size')
+            # what init.c:parseinit does for `{1, 2, 3}`: the type it was handed is completed in place
+            i2.assign(t.obj, ('size',), 12); i2.assign(t.obj, ('incomplete',), 0)
+            return Ptr(Obj('init', 'heap'), ())
+        return parseinit
+    def state(it, t):
+        return (it.load(t.obj, ('incomplete',)), it.load(t.obj, ('size',)))
+    for scope, sc in (('file', ()), ('file', ('static',)), ('block', ()), ('block', ('static',))):
+        def runner(it):
+            dw = c09.DeclWorld(prog, it); it.user['dw'] = dw
+            seen = {}
+            T = shared_T(it, dw.w)
+            d = c09.D('obj', scope, sc, init=True)
+            it.user['cur'] = d; it.user['semi'] = [False, True]
+            it.models['declspecs_T'] = None
+            base_declspecs = it.models['declspecs']
+            def declspecs(i2, a, e):
+                v = base_declspecs(i2, a, e)
+                return StructVal({('type',): T, ('qual',): 0, ('expr',): None})
+            def declarator(i2, a, e):
+                s_, base, name, funcscope, allowabstract = a
+                i2.assign(name.obj, name.path, dw.name); i2.assign(funcscope.obj, funcscope.path, None)
+                return StructVal({('type',): T, ('qual',): 0, ('expr',): None})
+            it.models.update({'declspecs': declspecs, 'declarator': declarator, 'parseinit': completing_parseinit(seen)})
+            if scope == 'file': s_ = dw.filescope; f = None
+            else: s_ = dw.block(); f = Ptr(Obj('curfunc', 'heap'), ())
+            dw.tokobj.f[('kind',)] = ev(prog, 'TSEMICOLON')
+            it.call(decl_fn, [s_, f])
+            bound = it.user['scopes'].get((s_.obj.id, 'x'))
+            bt = it.load(bound.obj, ('type',)) if bound is not None else None
+            return state(it, T), state(it, bt) if bt is not None else None
+        runs = explore(prog, runner, c09.decl_models(prog, None), max_runs=4, on_unsupported='keep')
+        key = 'shared-array-type:[%s] %s T x = {1, 2, 3};' % (scope, ' '.join(sc) or '-')
+        if len(runs) != 1 or runs[0].outcome not in ('return', 'terminal:error'):
+            raise AnalysisBroken('%s: %s' % (key, [(x.outcome, x.detail) for x in runs][:2]))
+        run = runs[0]
+        r.instance(run.outcome == 'return' and run.value == ((1, 0), (0, 12)), key, 'decl.c:%s' % decl_fn.get('line'),
+                   'with `typedef int T[];` the declaration must leave T incomplete (size 0) and give x the size 12; cproc: T is (incomplete, size) = %s, x is %s' % (run.value if run.outcome == 'return' else (run.outcome, run.detail)))
+    # compound literal (T){1, 2, 3}
+    def runner(it):
+        w = World(prog, it=it, target='x86_64-sysv')
+        seen = {}
+        T = shared_T(it, w)
+        toks = ['TLPAREN', 'TYPE', 'TRPAREN', 'TLBRACE', 'TSEMICOLON']
+        tokobj = it.gobj('tok'); st = {'i': 0}
+        def load():
+            k = toks[min(st['i'], len(toks) - 1)]
+            tokobj.f[('kind',)] = ev(prog, 'TIDENT' if k == 'TYPE' else k); tokobj.f[('lit',)] = None
+            tokobj.f[('loc', 'file')] = None; tokobj.f[('loc', 'line')] = 1; tokobj.f[('loc', 'col')] = 1
+        def nxt(i2, a, e): st['i'] += 1; load(); return None
+        def consume(i2, a, e):
+            if tokobj.f[('kind',)] == a[0] and toks[st['i']] != 'TYPE': nxt(i2, a, e); return 1
+            return 0
+        def expect(i2, a, e):
+            if tokobj.f[('kind',)] != a[0]: raise Terminal('error', 'expected token')
+            nxt(i2, a, e); return None
+        def typename(i2, a, e):
+            if toks[st['i']] != 'TYPE': return None
+            nxt(i2, a, e)
+            if a[1] is not None: i2.assign(a[1].obj, a[1].path, 0)
+            if a[2] is not None: i2.assign(a[2].obj, a[2].path, None)
+            return T
+        base_pi = completing_parseinit(seen)
+        def parseinit(i2, a, e):
+            v = base_pi(i2, a, e); nxt(i2, a, e); return v       # consumes the brace list
+        it.models.update({'next': nxt, 'consume': consume, 'expect': expect, 'typename': typename, 'parseinit': parseinit,
+                          'postfixexpr': lambda i2, a, e: a[1], 'decay': lambda i2, a, e: a[0],
+                          'xmalloc': lambda i2, a, e: Ptr(Obj('heap@%s' % e.get('line'), 'heap'), ()),
+                          'error': lambda i2, a, e: (_ for _ in ()).throw(Terminal('error', cmodel.fmt_of(i2, a, 1))),
+                          'fatal': lambda i2, a, e: (_ for _ in ()).throw(Terminal('fatal', cmodel.fmt_of(i2, a, 0)))})
+        load()
+        e = it.call(cast_fn, [Ptr(it.gobj('filescope'), ())])
+        et = it.load(e.obj, ('type',))
+        dd = it.load(e.obj, ('u', 'compound', 'decl'))
+        return state(it, T), state(it, et), state(it, it.load(dd.obj, ('type',)))
+    runs = explore(prog, runner, {}, max_runs=4, on_unsupported='keep')
+    key = 'shared-array-type:(T){1, 2, 3}'
+    if len(runs) != 1 or runs[0].outcome not in ('return', 'terminal:error'):
+        raise AnalysisBroken('%s: %s' % (key, [(x.outcome, x.detail) for x in runs][:2]))
+    run = runs[0]
+    r.instance(run.outcome == 'return' and run.value == ((1, 0), (0, 12), (0, 12)), key, 'expr.c:%s' % cast_fn.get('line'),
+               'the compound literal (its expression and its unnamed object) has size 12 and T stays incomplete; cproc: (incomplete, size) of T, the expression, the object = %s' % (run.value if run.outcome == 'return' else (run.outcome, run.detail),))
+    r.exhaustive = False
+
+
 def run(chk, tier):
     prog = facts.programs()['cproc-qbe']
     chk.guard('C07.a', lambda: rule_parseinit(chk, prog, tier))
@@ -1130,5 +1230,6 @@ def run(chk, tier):
     chk.guard('C07.c', lambda: rule_funcinit(chk, prog, tier))
     chk.guard('C07.e', lambda: rule_addrconst(chk, prog, tier))
     chk.guard('C07.f', lambda: rule_initialisable(chk, prog, tier))
+    chk.guard('C07.g', lambda: rule_shared_array_type(chk, prog, tier))
     from props import c16
     chk.guard('C16.c', lambda: c16.rule_stringkey(chk, prog, tier))      # string literal objects: distinct literals get distinct storage
